@@ -8,14 +8,16 @@ static const char* FIXED_PATTERNS[] = {"T*F**FFF*", "FF*FF****", "T********", "*
 
 static char pc(char r) { return r == 0 ? '0' : r == 1 ? '1' : 'E'; }
 
-static std::string observe(GEOSContextHandle_t h, const GEOSGeometry* a, const GEOSGeometry* b, Rng& r, const std::string& fixedPats) {
+// `reuse`: a prepared geometry of `a` made earlier and already used for other partners (it is then not destroyed here)
+static std::string observe(GEOSContextHandle_t h, const GEOSGeometry* a, const GEOSGeometry* b, Rng& r, const std::string& fixedPats,
+                           const GEOSPreparedGeometry* reuse = nullptr) {
     std::string s;
     for (int rule = 1; rule <= 4; rule++) {
         char* m = GEOSRelateBoundaryNodeRule_r(h, a, b, rule);
         s += " m" + std::to_string(rule) + "=" + (m ? m : "E"); if (m) GEOSFree_r(h, m); }
     { char* m = GEOSRelate_r(h, a, b); s += std::string(" m=") + (m ? m : "E"); if (m) GEOSFree_r(h, m); }
     { char* m = GEOSRelate_r(h, b, a); s += std::string(" mt=") + (m ? m : "E"); if (m) GEOSFree_r(h, m); }
-    const GEOSPreparedGeometry* pa = GEOSPrepare_r(h, a);
+    const GEOSPreparedGeometry* pa = reuse ? reuse : GEOSPrepare_r(h, a);
     { char* m = pa ? GEOSPreparedRelate_r(h, pa, b) : nullptr; s += std::string(" pm=") + (m ? m : "E"); if (m) GEOSFree_r(h, m); }
     std::string p;   // intersects disjoint touches crosses within contains overlaps equals covers coveredBy
     p += pc(GEOSIntersects_r(h, a, b)); p += pc(GEOSDisjoint_r(h, a, b)); p += pc(GEOSTouches_r(h, a, b)); p += pc(GEOSCrosses_r(h, a, b));
@@ -36,7 +38,7 @@ static std::string observe(GEOSContextHandle_t h, const GEOSGeometry* a, const G
         for (int k = 0; k < 2; k++) { std::string t; static const char sym[] = "TF*012***"; for (int i = 0; i < 9; i++) t += sym[r.below(9)]; pats.push_back(t); } }
     s += " pat=";
     for (size_t i = 0; i < pats.size(); i++) { if (i) s += ","; s += pats[i] + ":" + pc(GEOSRelatePattern_r(h, a, b, pats[i].c_str())) + pc(pa ? GEOSPreparedRelatePattern_r(h, pa, b, pats[i].c_str()) : 2); }
-    if (pa) GEOSPreparedGeom_destroy_r(h, pa);
+    if (pa && !reuse) GEOSPreparedGeom_destroy_r(h, pa);
     return s;
 }
 
